@@ -124,6 +124,10 @@ type fSpec struct {
 	// derived: the function under test is obtained from the specified one through
 	// WithNewDescriptions ("same signature and implementation"), so every clause still applies
 	derived bool
+	// nested: the implementation callback calls another function (with a marked argument for
+	// a parameter that does not accept marks, and with an unknown one) and then reads its own
+	// arguments again
+	nested bool
 }
 
 func (f fSpec) String() string {
@@ -138,6 +142,9 @@ func (f fSpec) String() string {
 	d := ""
 	if f.derived {
 		d = " via WithNewDescriptions"
+	}
+	if f.nested {
+		d += " impl makes nested calls"
 	}
 	return fmt.Sprintf("params[%s] var[%s] type=%d impl=%d refine=%v%s", strings.Join(ps, ","), v, f.tcb, f.icb, f.refine, d)
 }
@@ -227,6 +234,10 @@ func buildFunc(fs fSpec, log *[]spyEvent) function.Function {
 	}
 	spec.Impl = func(args []cty.Value, retType cty.Type) (cty.Value, error) {
 		*log = append(*log, spyEvent{"impl", append([]cty.Value(nil), args...)})
+		if fs.nested {
+			c10NestedCall()
+			*log = append(*log, spyEvent{"impl-after-nested-call", append([]cty.Value(nil), args...)})
+		}
 		switch fs.icb {
 		case implOK:
 			return c10ImplValue(fs.tcb, false), nil
@@ -254,6 +265,30 @@ func buildFunc(fs fSpec, log *[]spyEvent) function.Function {
 	return f
 }
 
+var c10Inner = function.New(&function.Spec{
+	Params: []function.Parameter{{Name: "s", Type: cty.String}, {Name: "t", Type: cty.DynamicPseudoType, AllowNull: true}},
+	Type:   function.StaticReturnType(cty.String),
+	Impl: func(args []cty.Value, _ cty.Type) (cty.Value, error) {
+		return cty.StringVal(args[0].AsString() + "!"), nil
+	},
+})
+
+// c10NestedCall is what a nesting implementation does: three calls of another function, one
+// that runs, one that short-circuits on an unknown argument, one that is rejected.
+func c10NestedCall() {
+	defer func() { recover() }()
+	c10Inner.Call([]cty.Value{cty.StringVal("inner").Mark("M4"), cty.NumberIntVal(9).Mark("M5")})
+	c10Inner.Call([]cty.Value{cty.UnknownVal(cty.String).Mark("M4"), cty.True.Mark("M5")})
+	c10Inner.Call([]cty.Value{cty.NullVal(cty.String).Mark("M4"), cty.True})
+}
+
+func goStrNil(v cty.Value) string {
+	if v == cty.NilVal {
+		return "cty.NilVal"
+	}
+	return goStr(v)
+}
+
 func paramFor(fs fSpec, i int) (pSpec, bool) {
 	if i < len(fs.params) {
 		return fs.params[i], true
@@ -274,6 +309,15 @@ func unionMarks(dst map[interface{}]bool, v cty.Value) {
 func c10Check(u *U, fs fSpec, args []cty.Value, kinds []int) {
 	var log []spyEvent
 	f := buildFunc(fs, &log)
+	c10CheckCall(u, fs, f, &log, args, kinds, "")
+}
+
+// c10CheckCall validates one call of an existing function value (its spy log is reset first);
+// hist describes the calls made earlier on that function value, if any.
+func c10CheckCall(u *U, fs fSpec, f function.Function, logp *[]spyEvent, args []cty.Value, kinds []int, hist string) {
+	*logp = (*logp)[:0]
+	before := append([]cty.Value(nil), args...)
+	defer func() { *logp = (*logp)[:0] }()
 	u.Eval(1)
 	u.Transition(1)
 	var res cty.Value
@@ -287,15 +331,24 @@ func c10Check(u *U, fs fSpec, args []cty.Value, kinds []int) {
 		res, err = f.Call(args)
 		return ""
 	}()
+	log := *logp
 	var kn []string
 	for _, k := range kinds {
 		kn = append(kn, argKindNames[k])
 	}
 	shape := fmt.Sprintf("positional=%d variadic=%v type=%d impl=%d <- %s", len(fs.params), fs.varp != nil, fs.tcb, fs.icb, strings.Join(kn, ","))
-	desc := func() string { return fmt.Sprintf("spec {%s} called with (%s)", fs.String(), argsStr(args)) }
+	desc := func() string {
+		return fmt.Sprintf("spec {%s} called with (%s)%s", fs.String(), argsStr(before), hist)
+	}
 	viol := func(site, detail string) {
 		u.Violation("call."+site, shape, desc()+": "+detail)
 	}
+	for i := range args {
+		if !rawEq(args[i], before[i]) {
+			viol("caller-slice-changed", fmt.Sprintf("the call changed element %d of the caller's argument slice from %s to %s", i, goStr(before[i]), goStr(args[i])))
+		}
+	}
+	args = before
 	if pan != "" {
 		viol("go-panic", "Call panicked: "+pan)
 		return
@@ -303,6 +356,19 @@ func c10Check(u *U, fs fSpec, args []cty.Value, kinds []int) {
 	var typeEv, implEv []spyEvent
 	implAt, typeAt := -1, -1
 	for i, e := range log {
+		if e.kind == "impl-after-nested-call" {
+			// the implementation made a call of its own and looked at its arguments again
+			if len(implEv) == 0 || len(e.args) != len(implEv[len(implEv)-1].args) {
+				viol("impl-args-changed", "the implementation's argument slice changed length while it made a nested call")
+				continue
+			}
+			for j := range e.args {
+				if !rawEq(e.args[j], implEv[len(implEv)-1].args[j]) {
+					viol("impl-args-changed", fmt.Sprintf("the implementation received %s for argument %d; after it had called another function that argument read %s", goStr(implEv[len(implEv)-1].args[j]), j, goStrNil(e.args[j])))
+				}
+			}
+			continue
+		}
 		if e.kind == "type" {
 			typeEv = append(typeEv, e)
 			if typeAt < 0 {
@@ -632,7 +698,56 @@ func argLists(fs fSpec, maxLen int, kindsN int, emit func(args []cty.Value, kind
 	rec(0, nil, nil)
 }
 
+// c10Histories: one function value, one caller-owned argument slice that is refilled between
+// calls, every ordered pair of argument lists (all 10 argument kinds per position); each call is
+// validated against the automaton exactly like a first call.  The implementation callback makes
+// calls of its own.
+func c10Histories(c *Ctx) {
+	red := []pSpec{{0, 0}, {0, 15}, {0, 8}, {0, 2}, {1, 0}, {1, 4}, {1, 15}, {2, 0}, {2, 8}}
+	nk := len(argKindNames)
+	type spec2 struct {
+		fs fSpec
+		n  int
+	}
+	var specs []spec2
+	for _, p1 := range red {
+		specs = append(specs, spec2{fSpec{params: []pSpec{p1}, tcb: cbOK, icb: implOK, refine: true, nested: true}, 1})
+		p1 := p1
+		specs = append(specs, spec2{fSpec{varp: &p1, tcb: cbDyn, icb: implOK, nested: true}, 2})
+		for _, p2 := range red {
+			specs = append(specs, spec2{fSpec{params: []pSpec{p1, p2}, tcb: cbOK, icb: implOK, refine: true, nested: true}, 2})
+		}
+	}
+	for _, sp := range specs {
+		sp := sp
+		c.Unit(func(u *U) {
+			var lists [][]cty.Value
+			var kindsOf [][]int
+			argLists(sp.fs, sp.n, nk, func(args []cty.Value, kinds []int) {
+				if len(args) == sp.n {
+					lists = append(lists, args)
+					kindsOf = append(kindsOf, kinds)
+				}
+			})
+			var log []spyEvent
+			f := buildFunc(sp.fs, &log)
+			shared := make([]cty.Value, sp.n)
+			for i := range lists {
+				for j := range lists {
+					copy(shared, lists[i])
+					c10CheckCall(u, sp.fs, f, &log, shared, kindsOf[i], "")
+					copy(shared, lists[j])
+					u.DistinctN(1)
+					c10CheckCall(u, sp.fs, f, &log, shared, kindsOf[j], " [second call on this function value through the same argument slice; the first was ("+argsStr(lists[i])+")]")
+				}
+			}
+			u.Class("call-history-unit")
+		})
+	}
+}
+
 func runC10(c *Ctx) {
+	c10Histories(c)
 	ps := allPSpecs()
 	nk := len(argKindNames)
 	// family A: one positional parameter, all callbacks
